@@ -110,6 +110,16 @@ CLAIMED = {
    design_ref="DESIGN.md section 6, C16",
    note="Trusted: Coq kernel, extraction, OCaml driver, Rust harness + watchdog, Python class predicate. Seeks to offsets in (2^40, 2^63) are excluded (file-system dependent EINVAL).",
    technique="correspondence: Coq model (incl. dependency's block walk) extracted to OCaml vs real detection + totality/classification oracle"),
+ "C13": dict(
+   category="translation_validation",
+   text="The Gallina model of slice_signal / slice_n_states / BitVectorBuilder (with the reduction to the smallest kind) is run, extracted "
+        "to OCaml, against signals::slice_signal (hook) on parents recorded through the real Encoder: exhaustive over parent widths 2..20 x "
+        "every proper sub-range x three kind profiles, random to width 300, debug and release builds; plus the 29 sub-range variables of "
+        "the corpus GHW file through the public API. Oracle: substring of the parent's value at every change, minimal kind, changes "
+        "only when the sub-range changes. Two genuine defects found this way were repaired (D1, D14). slice_spec is not yet proved, hence the level.",
+   design_ref="DESIGN.md section 6, C13",
+   note="Trusted: Coq kernel, extraction, OCaml driver, Rust harness (debug + release), Python substring oracle. GHW alias arithmetic is exercised through the corpus file only.",
+   technique="correspondence: Coq model extracted to OCaml vs real slicer (exhaustive small scope, debug+release) + substring oracle"),
 }
 
 NOT_YET = {}
